@@ -124,6 +124,9 @@ def trial(scratch, scenario, n, r, res, imds):
         res["violations"].append([s_, w_])
     reset_dirs()
     ws = wsmock.WsMock(key_dir=KEY_DIR, rng=r)
+    if r.random() < 0.3:
+        ws.guid_case = "upper"      # a host that prints guids in upper case (status and key documents alike)
+        bump("trials_with_upper_case_guids")
     pre_latched = prepare(scenario, ws, r)
     pre_bad = set()
     if scenario.startswith("local-key-") and scenario != "local-key-present":
@@ -246,6 +249,8 @@ def fault_trial(scratch, scenario, faults, r, res, imds):
         res["violations"].append([s_, w_])
     reset_dirs()
     ws = wsmock.WsMock(key_dir=KEY_DIR, rng=r)
+    if r.random() < 0.3:
+        ws.guid_case = "upper"
     prepare(scenario, ws, r)
     pre_bad = {ws.latched + ".key"} if scenario.startswith("local-key-") and scenario != "local-key-present" else set()
     for step, spec in faults:
